@@ -7,9 +7,12 @@
      RESOLVE <k> {<key-enc> <val-enc>}* <name-enc>  -> R <enc>   TypeContext::resolve_complex_type (type_map[key] = val in order)
      TARGS <name-enc>               -> A <base-enc> <n> <arg-enc>* | A -    the type arguments find_impl_for_struct cuts out
      CTX <fuel> <nblocks> {<base> <np> <param>* <nm> {<mname> <nmp> {<pname> <ptype>}* <na> <act>*}*}* <ncalls> {<rty> <m> <n>}*
-         act = O <ty> | D <v> <ty> | C <v> <m> | Y <v> <m> (try) | G <fn> | R <k> | F      (all names encoded)
+         act = O <ty> | D <v> <ty> | C <v> <m> | Y <v> <m> (try) | G <fn> | R <k> | F | L <ty> (defer) | Z (end of a void body)
+                                    (all names encoded)
                                     -> one group per call from main, separated by " ; ":
                                        <N|R|E> <stack depth after> <observed-name-enc>*
+                                       then " || " and the same groups (depth 0) for the hand-specialised copy
+                                       (Context.run_calls_mono: every statement under its body's own instance)
    Trees: ( kind nscalars {fname =enc}* nkids {fname node}* ) *)
 open C11_model
 
@@ -79,6 +82,8 @@ let load_act () =
   | "G" -> AFn (estr ())
   | "R" -> ARetIf (nat_of_int (num ()))
   | "F" -> AFail
+  | "L" -> ADefer (estr ())
+  | "Z" -> AEnd
   | t -> raise (Protocol ("unknown act " ^ t))
 let load_method () =
   let name = estr () in
@@ -146,10 +151,13 @@ let () =
               let nc = num () in
               let calls = List.init nc (fun _ -> let r = estr () in let m = estr () in let n = nat_of_int (num ()) in ((r, m), n)) in
               let rs = run_calls fuel prog [] calls in
+              let ms = run_calls_mono fuel prog [] calls in
+              let fl = function FNorm -> "N" | FRet -> "R" | FErr -> "E" in
+              let names l = String.concat "" (List.map (fun x -> " " ^ enc (implode x)) l) in
               String.concat " ; " (List.map (fun r ->
-                (match r.r_flag with FNorm -> "N" | FRet -> "R" | FErr -> "E") ^ " " ^
-                string_of_int (List.length r.r_stack) ^
-                String.concat "" (List.map (fun x -> " " ^ enc (implode x)) r.r_out)) rs)
+                fl r.r_flag ^ " " ^ string_of_int (List.length r.r_stack) ^ names r.r_out) rs)
+              ^ " || " ^
+              String.concat " ; " (List.map (fun q -> fl q.q_flag ^ " 0" ^ names q.q_out) ms)
           | "TABLE" -> "C " ^ String.concat " " (List.map implode cloned_child_fields) ^ " / S " ^
                        String.concat " " (List.map implode subst_child_fields)
           | c -> "X " ^ enc ("unknown command " ^ c)
